@@ -77,6 +77,9 @@ type VC struct {
 	funcIDs  map[string]int
 	usedContracts map[string]bool
 	lastEnv  *specEnv
+	objModCache []objMod
+	localRefs map[string][]localRef
+	inTypeInv bool
 	globals  []string
 	deferInfo map[*ssa.Defer]*callInfo
 	reach    map[*ssa.BasicBlock]string
@@ -108,6 +111,11 @@ type VC struct {
 	entryAlloc string
 }
 
+type localRef struct {
+	v ssa.Value
+	b *ssa.BasicBlock
+}
+
 type closureRec struct {
 	val  string
 	fn   *ssa.Function
@@ -128,7 +136,7 @@ func NewVC(p *Program, c *Contracts, fn *ssa.Function, fc *FuncContract) *VC {
 		keyMetas: map[string]keyMeta{}, strLits: map[string]int{"": 0}, strList: []string{""},
 		typeIDs: map[string]int{}, counts: map[string]int{}, Abstract: map[string]int{},
 		loops: map[*ssa.BasicBlock]*loopInfo{}, backEdge: map[[2]int]bool{}, callOrd: map[string]int{},
-		params: map[string]sval{}, siteUsed: map[*Clause]int{}, tuples: map[ssa.Value][]string{}, funcIDs: map[string]int{}, usedContracts: map[string]bool{}, deferInfo: map[*ssa.Defer]*callInfo{}}
+		params: map[string]sval{}, siteUsed: map[*Clause]int{}, tuples: map[ssa.Value][]string{}, funcIDs: map[string]int{}, usedContracts: map[string]bool{}, localRefs: map[string][]localRef{}, deferInfo: map[*ssa.Defer]*callInfo{}}
 	return vc
 }
 
@@ -391,6 +399,15 @@ func (vc *VC) ghostKey(name string) (string, *GhostDecl, bool) {
 				s = "(Array Int " + s + ")"
 			}
 			vc.keyMetas[key] = keyMeta{Sort: s, Mono: true, Arity: len(gd.Params), Ghost: true}
+		case "table":
+			s := "Int"
+			if gd.Result == "bool" {
+				s = "Bool"
+			}
+			for range gd.Params {
+				s = "(Array Int " + s + ")"
+			}
+			vc.keyMetas[key] = keyMeta{Sort: s, Arity: len(gd.Params), Ghost: true}
 		case "var":
 			s := "Int"
 			if gd.Result == "bool" {
@@ -528,11 +545,35 @@ func (vc *VC) typeFacts(term string, t types.Type, nonnil bool) {
 		if nonnil {
 			vc.assume(fmt.Sprintf("(not (= %s 0))", term))
 		}
+		vc.typeInvFacts(term, t)
 	case *types.Interface:
 		vc.assume(fmt.Sprintf("(= (= %s 0) (= (itag %s) 0))", term, term))
 		vc.assume(fmt.Sprintf("(<= 0 (itag %s))", term))
 	case *types.Basic:
 		_ = u
+	}
+}
+
+// typeInvFacts assumes the declared invariants of an (external) pointer type on a havoc source.
+func (vc *VC) typeInvFacts(term string, t types.Type) {
+	if len(vc.C.TypeInvs) == 0 || vc.inTypeInv {
+		return
+	}
+	ts := shortType(t)
+	for _, c := range vc.C.TypeInvs {
+		if c.Site != ts && !hasSuffixAt(ts, strings.TrimPrefix(c.Site, "*")) {
+			continue
+		}
+		if strings.HasPrefix(c.Site, "*") != strings.HasPrefix(ts, "*") {
+			continue
+		}
+		vc.inTypeInv = true
+		env := vc.newEnv(vc.st, vc.st, c.Detail)
+		env.vars["self"] = sval{term: term, typ: t}
+		g := vc.trBool(c.Expr, env, c)
+		vc.inTypeInv = false
+		vc.assume(fmt.Sprintf("(=> (not (= %s 0)) %s)", term, g))
+		vc.usedContracts["typeinv "+c.Site+": "+c.Text] = true
 	}
 }
 
